@@ -81,6 +81,23 @@ def make_pair(rng, n, scale, kind):
     elif kind == "nearhalf":
         R = half_turn(rng) @ rand_rot_small(rng, rng.choice([1e-5, 3e-5, 1e-4, 1e-3, 1e-2, 0.1]))
         B = A @ R
+    elif kind == "symmetric":
+        # symmetric tops against their mirror image / inversion-relabelled copy: the best proper rotation is not unique and the two largest
+        # eigenvalues of the key matrix coincide (n = 8: square prism, 12: hexagonal prism, 9: three-bladed propeller)
+        def prism(k_, r_, h_):
+            ang = 2 * np.pi * np.arange(k_) / k_
+            ring = np.stack([r_ * np.cos(ang), r_ * np.sin(ang), np.zeros(k_)], 1)
+            return np.concatenate([ring + [0, 0, h_ / 2], ring - [0, 0, h_ / 2]])
+        if n == 8:
+            A = prism(4, 0.2, 0.4) * scale; B = -A
+        elif n == 12:
+            A = prism(6, 0.25, 0.3) * scale; B = -A
+        else:
+            st = rng.choice([2.0, 3.0])
+            blade = np.array([[0.3, 0.05, 0.1 * st], [0.15, -0.1, -0.07 * st], [0.25, 0.12, 0.02 * st]])
+            A = np.concatenate([blade @ np.array([[np.cos(a_), np.sin(a_), 0], [-np.sin(a_), np.cos(a_), 0], [0, 0, 1]]) for a_ in (0, 2 * np.pi / 3, 4 * np.pi / 3)]) * scale
+            B = A * np.array([1, 1, -1])
+        B = B @ rand_rot(rng)
     elif kind == "smallrot":
         # near-identical structures that differ by a slight rigid drift: the rotation matrix is the identity to within float32 on its
         # diagonal, its off-diagonal elements (~ the angle) are what superpose has to apply
@@ -98,7 +115,7 @@ def rand_rot_small(rng, ang):
     return np.eye(3) + np.sin(ang) * K + (1 - np.cos(ang)) * K @ K
 
 
-KINDS = ["rand", "near", "mirror", "planar", "rot", "halfturn", "nearhalf", "smallrot"]
+KINDS = ["rand", "near", "mirror", "planar", "rot", "halfturn", "nearhalf", "smallrot", "symmetric"]
 
 
 def tol_msd(G_over_n, gaprel, cmax, rm):
@@ -154,6 +171,9 @@ def run(ctx):
         big = (k % 40 == 17)                                  # a large system: N * Rg^2 beyond 2e6 nm^2 (lambda^6 beyond the float32 range)
         if big:
             n, scale, sel_mode, nfr, nref, frame = 5000, 25.0, "none", 1, 1, 0
+        if kind == "symmetric":
+            n, sel_mode, scale = rng.choice([8, 12, 9]), "none", (scale if big else rng.choice([1.0, 4.0]))
+            big = False
         # full systems: n_tot atoms; the pair lives on the selected atoms
         extra = rng.choice([0, 2, 5]) if sel_mode != "none" else 0
         if sel_mode == "slice":
